@@ -308,6 +308,10 @@ func (e *Engine) findIntercept(fn *ssa.Function, name string) Handler {
 	if h, ok := exact[name]; ok {
 		return h
 	}
+	// generated protobuf Stringers only feed logs
+	if strings.HasSuffix(name, ").String") && strings.Contains(name, "/pkg/proto/") {
+		return opaqueString("proto.String")
+	}
 	for _, p := range prefixes {
 		if strings.HasPrefix(name, p.p) {
 			return p.h
